@@ -1,6 +1,7 @@
-"""NOT REGISTERED IN ANY CHECK: neither the loop-contract proof nor the bounded variant (n<=4, m<=6) of this unit
-finishes within 20 minutes on the SAT back end (309 k variables, but the equalities between the incrementally
-accumulated set / weight and the ghost root-path tables do not close); kept as a record of the attempt, see DESIGN 10.5.
+"""K11-builder: REGISTERED as a BOUNDED unit (`_direct_small`): plain CBMC, loops unwound, trees <= 4/5 vertices, <= 6/8 edges,
+weights 1..7, limit <= 63, with a direct specification walked by the harness.  What did not close (kept below as a record, see
+DESIGN 10.5): the loop-contract proof against ghost root-path tables and the same bounded check with 30-bit weights - the width
+of the weights, not the structure, was what the SAT back end could not digest.
 
 K11-builder: CandidateCycleBuilder::operator() (include/parmcb/sptrees.hpp) as an E1 unit.
 
@@ -60,7 +61,8 @@ def _unit(bounded, capn=6, capm=16):
         (r"\bws = trees\[c\.tree\(\)\]\.node\(w\);", "ws = w;", 3, "container-api", ""),
         (r"ws->has_pred\(\)", "HASPRED[ws]", 2, "container-api", ""),
         (r"Edge a = ws->pred\(\);", "size_t a = PRED[ws];", 2, "container-api", ""),
-        (r"result\.insert\(a\)\.second == false", "!vp_insert(&result, a)", 2, "container-api", "insert reports an element that was already there"),
+        (r"result\.insert\(a\)\.second == false", "!vp_insert(&result, a)", (0, 2), "container-api", "insert reports an element that was already there"),
+        (r"result\.insert\(a\);", "(void) vp_insert(&result, a);", (0, 2), "container-api", "insert whose report is ignored"),
         (r"w = boost::opposite\(a, w, g\);", "w = OPP(a, w);", 2, "container-api", "other endpoint"),
     ], log)
     inv1 = ("__CPROVER_assigns(w, ws, result, cycle_weight, valid)\n"
@@ -130,5 +132,57 @@ void h_build(void) {
     return spec
 
 
+def _direct_small(maxn, maxm, wmax=7):
+    """Plain CBMC, loops unwound, SMALL weights (1..wmax) and a direct specification walked by the harness."""
+    log = []
+    rel = "include/parmcb/sptrees.hpp"
+    spec = _unit(True, maxn, maxm)
+    txt = spec["text"]
+    i = txt.index("cycle_t build(bool use_weight_limit, W weight_limit)")
+    j = txt.index("{", txt.index("__CPROVER_ensures(__CPROVER_return_value.exists ==>", i))
+    k = txt.index("size_t vp_in_e; unsigned long vp_in_S;")
+    body = txt[j:k]
+    pre = txt[:i]
+    harness = r"""
+size_t vp_in_e; unsigned long vp_in_S; size_t vp_in_n, vp_in_m;
+void h_direct(void) {
+  bool ul; W lim;
+  __CPROVER_assume(vp_n >= 2 && vp_n <= MAXN && vp_m >= 1 && vp_m <= MAXM && vp_e < vp_m && lim >= 0 && lim <= 63 && ul <= 1 && vp_S < (1UL << MAXM));
+  for (size_t i = 0; i < MAXM; i++) __CPROVER_assume(SRC[i] < vp_n && TGT[i] < vp_n && SRC[i] != TGT[i] && WT[i] >= 1 && WT[i] <= %(WMAX)d);
+  for (size_t v = 0; v < MAXN; v++) {
+    __CPROVER_assume(PRED[v] < vp_m && HASPRED[v] <= 1 && PAR[v] <= 1 && DEPTH[v] < MAXN);
+    if (v < vp_n && HASPRED[v]) { size_t a = PRED[v]; __CPROVER_assume((SRC[a] == v || TGT[a] == v) && DEPTH[v] == DEPTH[OPP(a, v)] + 1); }
+  }
+  vp_in_e = vp_e; vp_in_S = vp_S; vp_in_n = vp_n; vp_in_m = vp_m;
+  /* specification: closing edge + the two root paths; a repeated edge means the candidate is not a simple cycle */
+  unsigned long emask = BIT(vp_e); W ew = WT[vp_e]; bool dup = 0;
+  for (int side = 0; side < 2; side++) {
+    size_t w = side == 0 ? SRC[vp_e] : TGT[vp_e];
+    for (size_t step = 0; step < MAXN; step++) if (HASPRED[w]) {
+      size_t a = PRED[w];
+      if (emask & BIT(a)) dup = 1;
+      emask |= BIT(a); ew += WT[a]; w = OPP(a, w);
+    }
+  }
+  bool odd = (bool)(PAR[SRC[vp_e]] ^ PAR[TGT[vp_e]] ^ (bool)((vp_S >> vp_e) & 1UL));
+  bool expect = odd && !dup && (!ul || ew <= lim);
+  cycle_t r = build(ul, lim);
+  __CPROVER_assert(r.exists == expect, "K11-builder: found <=> odd, no repeated edge among closing edge + root paths, total weight within the limit");
+  __CPROVER_assert(!r.exists || (r.edges == emask && r.weight == ew), "K11-builder: the result is that edge set with its true weight");
+  __CPROVER_assert(0, "VP_REACH end of harness");
+}
+""" % dict(WMAX=wmax)
+    head = "cycle_t build(bool use_weight_limit, W weight_limit)\n"
+    out = dict(spec)
+    out.update(unit="K11_candidate_builder", site="K11_candidate_builder", text=pre + head + body + harness, entry="h_direct", enforce=None, replace=[],
+               flags=["--nondet-static"], unwind=max(maxn, maxm) + 2, timeout=1200, mode="bounded",
+               bound="trees with <= %d vertices, <= %d edges, weights 1..%d, limit <= 63, all loops unwound; direct specification walked by the harness" % (maxn, maxm, wmax),
+               functions={"CandidateCycleBuilder::operator()": "bounded(n<=%d, m<=%d, small weights)" % (maxn, maxm)})
+    for key in ("fallback", "loop_contracts"):
+        out.pop(key, None)
+    return out
+
+
 def units(tier):
-    return [X.guarded("K11_candidate_builder", _unit, False, 8 if tier == "thorough" else 5, 30 if tier == "thorough" else 12)]
+    big = tier == "thorough"
+    return [X.guarded("K11_candidate_builder", _direct_small, 5 if big else 4, 8 if big else 6, 7)]
